@@ -68,6 +68,12 @@ def run(ctx):
     for dl in range(0, 65 if ctx.thorough else 34):
         for ml in sorted({0, 1, dl // 2, max(0, dl - 1), dl, dl + 1, dl + 7}):
             cases.append(("xor", (rng.randbytes(dl), rng.randbytes(ml))))
+    for dl in (2, 3, 5, 8, 9, 16, 24):
+        for ml in range(1, dl + 2):
+            body = rng.randbytes(max(0, ml - 1))
+            for mask in (b"\x00" + body, body + b"\x00", bytes(ml), b"\x00" * (ml - 1) + b"\x01", b"\x80" + body, body + b"\x80", b"\xff" * ml):
+                cases.append(("xor", (rng.randbytes(dl), mask[:ml])))
+                cases.append(("xor", (gens.special_bytes(rng, dl), mask[:ml])))
     # parity helper: all 16-bit values in thorough, sampled otherwise; sampled 32-bit
     vals = range(1 << 16) if ctx.thorough else list(range(0, 1 << 16, 97)) + list(range(512))
     for v in vals:
